@@ -19,6 +19,19 @@ func init() {
 }
 
 func runMacro(p sx.Sx) sx.Sx {
+	if p.IsList && len(p.List) == 5 && p.List[0].Atom == "redef" {
+		// (redef #name #def1 #def2 #query): the table changes between two expansions of one query -
+		// the expansion is a function of (query, table as it is NOW), not of earlier calls
+		name, d1, d2, q := p.List[1].Str(), p.List[2].Str(), p.List[3].Str(), p.List[4].Str()
+		kfl.AddMacro(name, d1)
+		e1, err1 := kfl.ExpandMacros(q)
+		kfl.AddMacro(name, d2)
+		e2, err2 := kfl.ExpandMacros(q)
+		if err1 != nil || err2 != nil {
+			return sx.L(sx.A("error"), sx.S("expand failed"))
+		}
+		return sx.L(sx.A("redef"), sx.S(e1), sx.S(e2))
+	}
 	q := p.Str()
 	first, err := kfl.ExpandMacros(q)
 	if err != nil {
@@ -54,6 +67,10 @@ func genMacro(r *Rand, tier string, emit func(sx.Sx)) {
 	}
 	for _, f := range fixed {
 		emit(sx.S(f))
+	}
+	// a macro defined, used, redefined and used again (AddMacro is the registration API of the table)
+	for i, q := range []string{"zzverif", "zzverif and http", "!zzverif or request.path == \"zzverif\"", "http and zzverif2 and xzzverif2 and \"zzverif2\""} {
+		emit(sx.L(sx.A("redef"), sx.S([]string{"zzverif", "zzverif", "zzverif", "zzverif2"}[i]), sx.S("dst.name == \"v1\""), sx.S("dst.name == \"v2\" or dst.name == \"v3\""), sx.S(q)))
 	}
 	// non-ASCII text inside string literals before, around and after macro names (the regexp engine
 	// counts in runes, Go strings in bytes): 2-, 3- and 4-byte characters, 1 to 12 of them
